@@ -342,13 +342,9 @@ def j_seg_cont(ln):
         if got is None: return OK                                              # documented: zero-length container
         return ('fail', 'contains-short-segment-accepted', 'container of length %s gave %s' % (g(flen(ab)), ' '.join(R)))
     if same_pt(a1, b1) != 'out':
-        # container shorter than the coincidence tolerance (but longer than 1e-6): only clear-cut exact answers are judged
-        if got is None: return ('skip', 'degenerate-segment')
-        far = max(dist2_pt_seg(a2, a1, b1), dist2_pt_seg(b2, a1, b1)) >= (T5 * B) ** 2
-        if far: want = False
-        else: return ('skip', 'degenerate-segment')
-        if got != want: return ('fail', 'far-segment-in-short-container-accepted', 'container of length %s reported to contain a segment %s away' % (g(flen(ab)), g(fsqrt(max(dist2_pt_seg(a2, a1, b1), dist2_pt_seg(b2, a1, b1))))))
-        return OK
+        # container shorter than the 1e-5 coincidence tolerance (its end points are "the same point" for the library):
+        # inside the documented tolerances, not judged (the crate answers through is_collinear's "two equal points" rule)
+        return ('skip', 'degenerate-segment')
     (s1, w1), (s2, w2) = pt_on_seg_status(a1, b1, a2), pt_on_seg_status(a1, b1, b2)
     if 'ill' in (s1, s2): return ('skip', 'ill-conditioned')
     if 'outside' in (s1, s2): want = False
